@@ -263,6 +263,21 @@ pub fn tactical_roots() -> Vec<GameSpec> {
     // a game with history (repetition possible in the tree)
     v.push(GameSpec { fen: "rnbqkbnr/pppppppp/8/8/8/8/PPPPPPPP/RNBQKBNR w KQkq - 0 1".into(), moves: vec!["g1f3".into(), "g8f6".into(), "f3g1".into(), "f6g8".into(), "g1f3".into(), "g8f6".into(), "f3g1".into()] });
     v.push(GameSpec { fen: "8/8/8/4k3/8/8/8/R3K3 w Q - 96 1".into(), moves: vec!["a1a2".into(), "e5e6".into(), "a2a1".into()] });
+    // deep in a long game: 120 and 200 plies of a deterministic game (k-th legal move policy) as history
+    for (start, plies) in [("rnbqkbnr/pppppppp/8/8/8/8/PPPPPPPP/RNBQKBNR w KQkq - 0 1", 120usize), ("r3k2r/p1ppqpb1/bn2pnp1/3PN3/1p2P3/2N2Q1p/PPPBBPPP/R3K2R w KQkq - 0 1", 200), ("rnbqkbnr/pppppppp/8/8/8/8/PPPPPPPP/RNBQKBNR w KQkq - 0 3000", 60)] {
+        let mut p = Pos::from_fen(start).unwrap();
+        let mut moves = vec![];
+        for ply in 0..plies {
+            let mut l = p.legal_moves();
+            l.sort();
+            // avoid ending the game: prefer a move after which the opponent still has a move
+            let pick = (0..l.len()).map(|k| l[(l.len() / 2 + ply + k) % l.len()]).find(|m| !p.apply(m).legal_moves().is_empty());
+            let Some(m) = pick else { break };
+            p = p.apply(&m);
+            moves.push(m.uci());
+        }
+        v.push(GameSpec { fen: start.into(), moves });
+    }
     // the properties quantify over legal, non-terminal positions
     v.retain(|g| match g.build() {
         Ok((_, p)) => p.is_legal_position() && !p.legal_moves().is_empty(),
